@@ -1,5 +1,5 @@
 (* C06: the kill ring. *)
-From RL Require Import UData LineBuffer LineBufferOps KillRing.
+From RL Require Import UData LineBuffer LineBufferOps KillRing LineBufferTotal.
 
 Definition kr_ok (k : killring) : Prop :=
   0 < kr_cap k /\ length (kr_slots k) <= kr_cap k
@@ -176,4 +176,85 @@ Proof.
     + unfold k3, cur_slot in *; cbn. destruct d; exact H2.
     + exists k'. split; [exact G1|]. split; [destruct d; exact G2|]. repeat split; auto.
       rewrite G4. unfold k3; cbn. exact H4.
+Qed.
+
+(* ---------- a run of kills around a fixed cursor, then one yank: the original text ---------- *)
+
+(* [kills_from ks L R L' R']: starting with L before and R after the cursor, the kills ks (in command
+   order) each remove a piece ending at the cursor (backward) or starting at it (forward); L', R' remain *)
+Inductive kills_from : list (direction * str) -> str -> str -> str -> str -> Prop :=
+| kf_nil L R : kills_from [] L R L R
+| kf_fwd t ks L R1 L' R' : kills_from ks L R1 L' R' -> kills_from ((DForward, t) :: ks) L (t ++ R1) L' R'
+| kf_bwd t ks L1 R L' R' : kills_from ks L1 R L' R' -> kills_from ((DBackward, t) :: ks) (L1 ++ t) R L' R'.
+
+Theorem kill_run_restores ks L R L' R' :
+  kills_from ks L R L' R' -> forall acc, L' ++ run_text ks acc ++ R' = L ++ acc ++ R.
+Proof.
+  induction 1 as [L R|t ks L R1 L' R' _ IH|t ks L1 R L' R' _ IH]; intros acc; cbn [run_text].
+  - reflexivity.
+  - rewrite IH. rewrite <- !app_assoc. reflexivity.
+  - rewrite IH. rewrite <- !app_assoc. reflexivity.
+Qed.
+
+(* ---------- what yank and yank-pop do to the line ---------- *)
+
+Lemma yank_once_spec (b : lb) l r t :
+  buf b = l ++ r -> pos b = blen l -> grow b = true -> t <> [] ->
+  yank t 1 b = Ok (Some (Nat.eqb (pos b) (lb_len b)),
+                   mkLb (l ++ t ++ r) (blen l + blen t) (cap b) (grow b), [EInsertStr (blen l) t]).
+Proof.
+  intros Hb Hp Hg Ht. destruct t as [|c t]; [congruence|].
+  unfold yank. unfold bind at 1. cbn [get]. unfold must_truncate. rewrite Hg. cbn [Nat.eqb]. rewrite Hp.
+  cbn [negb andb]. unfold bind. rewrite (LineBufferTotal.insert_str_ok b l r (c :: t) Hb).
+  cbn [ret put_pos app]. unfold set_pos', set_buf. cbn [buf pos cap grow]. rewrite Nat.mul_1_r, Hg. reflexivity.
+Qed.
+
+(* yank-pop replaces exactly the bytes the previous yank inserted *)
+Theorem yank_pop_replaces (b : lb) l old r new :
+  buf b = l ++ old ++ r -> pos b = blen l + blen old -> grow b = true -> new <> [] ->
+  exists ev p, yank_pop (blen old) new b = Ok (Some p, mkLb (l ++ new ++ r) (blen l + blen new) (cap b) (grow b), ev).
+Proof.
+  intros Hb Hp Hg Hn. unfold yank_pop. unfold bind at 1. cbn [get]. rewrite Hp.
+  replace (Nat.ltb (blen l + blen old) (blen old)) with false by (symmetry; apply Nat.ltb_ge; lia).
+  replace (blen l + blen old - blen old) with (blen l) by lia.
+  unfold bind at 1. rewrite (LineBufferTotal.drain_ok b l old r DForward Hb).
+  unfold bind at 1. cbn [put_pos].
+  set (b1 := set_pos' (set_buf b (l ++ r)) (blen l)).
+  assert (H1 : buf b1 = l ++ r) by reflexivity.
+  assert (H2 : pos b1 = blen l) by reflexivity.
+  assert (H3 : grow b1 = true) by exact Hg.
+  rewrite (yank_once_spec b1 l r new H1 H2 H3 Hn). eexists _, _. reflexivity.
+Qed.
+
+(* ---------- a kill command, then yank ---------- *)
+
+(* the notifications of one kill command that removed t (C04: one Delete between start/stop) reach
+   the ring; the next yank hands back exactly t when this kill started a run ... *)
+Theorem kill_then_yank k i t d :
+  kr_ok k -> kr_killing k = false -> kr_last k <> KAKill ->
+  exists k1 k2, kr_notify_all k [EStartKill; EDelete i t d; EStopKill] = Ok k1
+                /\ kr_yank k1 = (k2, Some t) /\ kr_last k2 = KAYank (blen t) /\ kr_killing k1 = false /\ kr_ok k1.
+Proof.
+  intros Hok Hk Hl. cbn [kr_notify_all kr_notify]. cbn [kr_killing].
+  set (k0 := mkKr (kr_slots k) (kr_cap k) (kr_index k) (kr_last k) true).
+  assert (Hok0 : kr_ok k0) by exact Hok.
+  destruct (kr_kill_new k0 t (match d with DForward => KAppend | DBackward => KPrepend end) Hok0 Hl)
+    as [k' [H1 [H2 [H3 [H4 H5]]]]].
+  rewrite H1. cbn [kr_notify_all kr_notify].
+  set (k1 := mkKr (kr_slots k') (kr_cap k') (kr_index k') (kr_last k') false).
+  assert (Hs : cur_slot k1 = Some t) by exact H2.
+  exists k1. eexists. split; [reflexivity|]. split; [apply kr_yank_spec; exact Hs|].
+  split; [reflexivity|]. split; [reflexivity|exact H4].
+Qed.
+
+(* ... and, after a run of kills, the whole run (kr_kill_run + kill_run_restores): inserting the slot at
+   the cursor gives back the text from before the first kill of the run *)
+Theorem kill_run_then_yank ks L R L' R' k :
+  kills_from ks L R L' R' ->
+  kr_last k = KAKill -> 0 < kr_cap k -> cur_slot k = Some [] -> kr_killing k = false ->
+  exists k' s, kr_notify_all k (kill_events ks) = Ok k' /\ cur_slot k' = Some s /\ L' ++ s ++ R' = L ++ R.
+Proof.
+  intros Hk Hl Hc Hs Hkk. destruct (kr_kill_run ks k [] Hl Hc Hs Hkk) as [k' [H1 [H2 _]]].
+  exists k', (run_text ks []). split; [exact H1|]. split; [exact H2|].
+  rewrite (kill_run_restores ks L R L' R' Hk []). reflexivity.
 Qed.
